@@ -521,6 +521,7 @@ def e2e_mitm(ctx, kex, kind, algo, field, rng):
     reply_t = 33 if fam == "gex" else 31
     kinds = "sms" if fam in ("grp", "gex") else "sss"
     hit = []
+    edited = {}
 
     def edit(d, t, payload):
         if hit:
@@ -542,6 +543,13 @@ def e2e_mitm(ctx, kex, kind, algo, field, rng):
                 b = bytearray(f[2])
                 b[-1 - rng.randrange(8)] ^= 1 << rng.randrange(8)
                 f[2] = bytes(b)
+            hit.append(1)
+            return L.rebuild(t, *zip(kinds, f))
+        if field.startswith("sig-") and d == "s2c" and t == reply_t:
+            f = L.split_fields(payload, kinds)
+            f[2] = resize_signature(f[2], field, rng)
+            edited["sig"] = f[2]
+            edited["hostkey"] = f[0]
             hit.append(1)
             return L.rebuild(t, *zip(kinds, f))
         if field.startswith(("empty-", "cut-")) and d == "s2c" and t == reply_t:
@@ -587,6 +595,14 @@ def e2e_mitm(ctx, kex, kind, algo, field, rng):
             ctx.disagree("e2e-mitm-did-not-see-packet", case, "edited", "seen %r" % e.mitm.seen)
             return
         sent_newkeys = 21 in e.mitm.seen["c2s"]
+        if "sig" in edited and e.log["c"]:
+            # the oracle proper: does the signature field AS RECEIVED verify under the key shown (independent verifier)?
+            valid = independently_valid(edited["hostkey"], e.log["c"][0][1], edited["sig"])
+            ctx.dist("e2e-mitm:independent-verifier:%s" % valid)
+            if valid is True:
+                if err is not None:
+                    ctx.disagree("valid-signature-refused", case, "accepted", repr(err))
+                return
         if err is None or sent_newkeys or e.tc.is_authenticated():
             ctx.fail("altered-exchange-accepted:%s:%s" % (fam, field), case,
                      "client error=%r NEWKEYS sent by client=%s" % (err, sent_newkeys))
@@ -619,7 +635,9 @@ def e2e_rekey_tamper(ctx, kex, kind, algo, field, rng):
             payload = m.asbytes()
             if payload[0] == reply_t and not hit:
                 f = L.split_fields(payload, kinds)
-                if field == "signature":
+                if field.startswith("sig-"):
+                    f[2] = resize_signature(f[2], field, rng)
+                elif field == "signature":
                     b = bytearray(f[2])
                     b[-1 - rng.randrange(8)] ^= 1 << rng.randrange(8)
                     f[2] = bytes(b)
@@ -660,6 +678,55 @@ def e2e_rekey_tamper(ctx, kex, kind, algo, field, rng):
                      % (out["res"], completed))
     finally:
         e.close()
+
+
+def resize_signature(sigblob, field, rng):
+    """octets prepended / appended INSIDE the signature string of a signature blob (string name, string body)"""
+    name, body = L.split_fields(b"\x00" + sigblob, "ss")
+    how = field[len("sig-"):]
+    if how == "prepend-1":
+        body = bytes([rng.randrange(1, 256)]) + body
+    elif how == "prepend-8":
+        body = rng.randbytes(7) + b"\x01" + body
+    elif how == "prepend-300":
+        body = rng.randbytes(300) + body
+    elif how == "prepend-zero":
+        body = b"\x00" * rng.choice([1, 2, 8]) + body
+    elif how == "append-1":
+        body = body + bytes([rng.randrange(256)])
+    elif how == "append-8":
+        body = body + rng.randbytes(8)
+    else:
+        raise KeyError(field)
+    return s_(name) + s_(body)
+
+
+def independently_valid(hostkey_blob, H, sigblob):
+    """True / False for RSA keys (verified with `cryptography` alone: the body must be exactly the modulus' size,
+    or shorter and then left-padded with zeros, PKCS#1 v1.5 with the hash the blob names); None = not judged here"""
+    from cryptography.exceptions import InvalidSignature
+    from cryptography.hazmat.primitives import hashes
+    from cryptography.hazmat.primitives.asymmetric import padding, rsa
+
+    try:
+        ktype, e_, n_ = L.split_fields(b"\x00" + hostkey_blob, "smm")
+    except Exception:
+        return None
+    if ktype != b"ssh-rsa":
+        return None
+    name, body = L.split_fields(b"\x00" + sigblob, "ss")
+    h = {b"ssh-rsa": hashes.SHA1, b"rsa-sha2-256": hashes.SHA256, b"rsa-sha2-512": hashes.SHA512}.get(name)
+    if h is None:
+        return False
+    pub = rsa.RSAPublicNumbers(e_, n_).public_key()
+    size = (pub.key_size + 7) // 8
+    if len(body) > size:
+        return False
+    try:
+        pub.verify(b"\x00" * (size - len(body)) + body, H, padding.PKCS1v15(), h())
+        return True
+    except InvalidSignature:
+        return False
 
 
 def recompress(kex, point):
@@ -705,7 +772,10 @@ def end_to_end(ctx):
         plan = [(k, kind, algo, f) for k in ALL_ENGINES for kind, algo in [KEY_ALGOS[2], KEY_ALGOS[3], KEY_ALGOS[6]]
                 for f in fields + (["gex-group-p", "gex-group-g"] if k.startswith("gex") else [])
                 + (["reencode-Q_S", "reencode-Q_C"] if k.startswith("nist") else [])
-                + ["empty-hostkey", "empty-value", "empty-signature", "cut-hostkey", "cut-value", "cut-signature"]]
+                + ["empty-hostkey", "empty-value", "empty-signature", "cut-hostkey", "cut-value", "cut-signature"]
+                + ["sig-prepend-1", "sig-prepend-8", "sig-prepend-300", "sig-prepend-zero", "sig-append-1", "sig-append-8"]]
+        plan += [(k,) + KEY_ALGOS[i] + (f,) for k in ("c25519", "group14-256") for i in (0, 1)
+                 for f in ("sig-prepend-1", "sig-prepend-300", "sig-prepend-zero")]
     else:
         plan = []
         for k in ["group14-256", "gex256", "nistp256", "c25519"]:
@@ -717,6 +787,13 @@ def end_to_end(ctx):
         for j, k in enumerate(["nistp256", "nistp384", "nistp521"]):
             for f in ("reencode-Q_S", "reencode-Q_C"):
                 plan.append((k,) + KEY_ALGOS[(j * 2 + len(f)) % 7] + (f,))
+        # the signature string made longer (octets prepended / appended), REAL RSA host keys, every kex family
+        zfields = ["sig-prepend-1", "sig-prepend-8", "sig-prepend-300", "sig-prepend-zero", "sig-append-1"]
+        for j, k in enumerate(["c25519", "nistp256", "group14-256", "gex256"]):
+            for i, f in enumerate(zfields):
+                plan.append((k,) + KEY_ALGOS[(i + j) % 3] + (f,))
+        plan.append(("c25519",) + KEY_ALGOS[3] + ("sig-prepend-1",))
+        plan.append(("nistp256",) + KEY_ALGOS[6] + ("sig-prepend-8",))
         # structural edits of the reply, every kex family: a field emptied, or the packet cut off at that field
         sfields = ["empty-hostkey", "empty-value", "empty-signature", "cut-hostkey", "cut-signature"]
         for j, k in enumerate(["c25519", "nistp256", "group14-256", "group16", "gex256"]):
@@ -737,6 +814,8 @@ def end_to_end(ctx):
             for i, f in enumerate(rfields):
                 kind, algo = [KEY_ALGOS[2], KEY_ALGOS[3], KEY_ALGOS[6], KEY_ALGOS[0]][(i + j) % 4]
                 rplan.append((k, kind, algo, f))
+    rplan += [("c25519",) + KEY_ALGOS[2] + ("sig-prepend-8",), ("group14-256",) + KEY_ALGOS[0] + ("sig-prepend-1",),
+              ("nistp256",) + KEY_ALGOS[1] + ("sig-prepend-300",)]
     for kex, kind, algo, f in rplan:
         e2e_rekey_tamper(ctx, kex, kind, algo, f, rng)
 
@@ -821,7 +900,8 @@ def run(ctx):
                 "every kex with a host-key algorithm (thorough: all 10 x 7), 1-5 rekeys initiated by either side, and "
                 "single-field MITM edits (host key flipped / swapped, f or Q_S, signature, client value, gex p, gex g, Q_S / Q_C "
                 "re-encoded as the same point in compressed form; each reply field EMPTIED or the packet cut off at it, "
-                "every kex family; at engine level the toy verification runs through the REAL Transport._verify_key), the same edits (signature, value, replayed first signature) on a RE-exchange with the same host key. "
+                "every kex family; octets PREPENDED (1, 8, 300; zero and non-zero) or appended inside the signature string "
+                "with real RSA host keys, judged by an independent `cryptography` verifier of the field as received; at engine level the toy verification runs through the REAL Transport._verify_key), the same edits (signature, value, replayed first signature) on a RE-exchange with the same host key. "
                 "Transport.connect over all 64 option combinations x 2 server key types (hostkey absent / same / "
                 "other of the same type / other type; pkey, password, gss_auth, gss_kex) with recording auth_* "
                 "methods. distinct = distinct (engine, role, packets) / (kex, algorithm, edit); non-trivial = a complete "
